@@ -4,6 +4,7 @@ import BigtoolsModel.Tiler4
 import BigtoolsModel.SweepProof
 import BigtoolsModel.ZoomQueryBytes
 import BigtoolsModel.WriterSections
+import BigtoolsModel.AtomsGen
 /-! # C08 — bigBed zoom levels are faithful reductions of coverage depth
 
 Property theorems (statements copied from the lemma modules, proofs by those lemmas). -/
@@ -94,3 +95,26 @@ theorem C08_source_zoom_filter_is_zKeep (c qs qe : Nat) (r : ZRec) :
   ⟨gen_zoom_filter_0 c qs qe r, gen_zoom_filter_1 c qs qe r⟩
 
 end BBI
+
+namespace Tiler2
+
+/-- **The code's own bigBed tiler loop** (`process_val_zoom` in bigbedwrite.rs), assembled from the expressions regenerated
+    from the source, is the model's `iter` (the tiler `C08_records_are_a_faithful_reduction_of_depth` is about), for every
+    resolution, depth piece, position and tiler state; exit test and full-section test as in the model. -/
+theorem C08_source_tiler_loop_body_is_the_models (size : Nat) (x : Val) (a : Nat) (st : TSt) (n ips : Nat) :
+    iterGenBed size x a st = iter repaired size x a st ∧ Gen.bz_done a x.e = decide (a ≥ x.e) ∧
+    Gen.bz_full n ips = decide (n = ips) :=
+  ⟨gen_bed_tiler_iter size x a st, (gen_tiler_done a x.e).2, (gen_zoom_section_flush a x.e true true true n ips).2⟩
+
+end Tiler2
+
+namespace Sweep
+
+/-- **The code's own zoom sweep** (the coverage sweep inside `process_val_zoom`): increment-and-split, tail rule and flush
+    loop assembled from the tests regenerated from the source are the model's `bump`, `tailZoom`, `flush`. -/
+theorem C08_source_zoom_sweep_is_the_models (itemStart itemEnd nextStart fuel : Nat) (l : List Seg) :
+    bumpGen true itemEnd l = bump itemEnd l ∧ tailGen true itemStart itemEnd l = tailZoom itemStart itemEnd l ∧
+    flushGen true nextStart fuel l = flush nextStart fuel l :=
+  ⟨gen_bump true itemEnd l, gen_tail true itemStart itemEnd l, gen_flush true nextStart fuel l⟩
+
+end Sweep
